@@ -1154,6 +1154,8 @@ def build_fn(ctx, unit, fs):
         segs.insert(0, Seg(sig + " ", ("ins", fn_label, "arm-signature", None)))
         ctx.fire("ARM", sf, toks[it.body_open].start, f"arm {fs.opts.get('arm_state', 'loop ' + str(fs.opts.get('slice_loop')))} / {fs.opts.get('arm_pat', 'body')} sliced into {fn_label}")
     attrs = "".join(a + "\n" for a in fs.attrs)
+    if fs.opts.get("attr"):
+        attrs += fs.opts["attr"].replace("~", " ") + "\n"
     if attrs:
         segs.insert(0, Seg(attrs, ("ins", fn_label, "attr", None)))
     span_hash = hashlib.sha256(sf.text[it.start:it.end].encode()).hexdigest()[:12]
